@@ -124,7 +124,7 @@ SPECS = {
             "entry": "broadcast use group_eq_axioms, vstd::std_specs::hash::group_hash_axioms, axiom_dn_key_model; let ghost idx = it__.index@ as int; assert(*rr == rrs@[idx]); proof { if match_name is Some && rr.name.labels@.len() == match_count && is_suffix(rr.name.labels@, target.labels@) { lemma_suffix_same_len(rr.name.labels@, some_dn(match_name).labels@, target.labels@); } }"}},
         "anchors": [{"after": "ns_names.insert(nsdname.clone());", "nth": 0, "proof": "assert(ns_names@.contains(*nsdname));"},
                     {"after": "ns_names.insert(nsdname.clone());", "nth": 1, "proof": "assert(ns_names@.contains(*nsdname));"}]},
-    "follow_cnames": {"props": ["C06", "C10"], "rewrites": [("R24", _r24)],
+    "follow_cnames": {"props": ["C06", "C10", "C08"], "rewrites": [("R24", _r24)],
         "contract": """    ensures
         r is Some ==> cmap_from(r->Some_0.1@, rrs@), // [C06:cname_links_come_from_the_reply]
         r is Some ==> path_ok(r->Some_0.1@, rrs@, *target, r->Some_0.0, qtype), // [C06:final_name_reached_by_following_cnames]
@@ -217,6 +217,48 @@ pub proof fn lemma_suffix_same_len<T>(a: Seq<T>, b: Seq<T>, of: Seq<T>)
 """
 
 
+TRANSPORT_STANDINS = """
+// ---- the transport: sockets are stand-ins without postconditions; what is checked is the 5-second budget around each exchange and
+// that a reply is handed on only if it matches the request
+pub struct WireRequest { b: u8 }
+#[verifier::external_body]
+fn shim_random_id() -> (r: u16) { unimplemented!() }
+#[verifier::external_body]
+fn shim_to_octets(m: &Message) -> (r: Result<WireRequest, Error>) { unimplemented!() }
+pub struct Error { e: u8 }
+#[verifier::external_body]
+fn query_nameserver_udp_notimeout(address: SocketAddr, serialised_request: &mut WireRequest) -> (r: Option<Message>) { unimplemented!() }
+#[verifier::external_body]
+fn query_nameserver_tcp_notimeout(address: SocketAddr, serialised_request: &mut WireRequest) -> (r: Option<Message>) { unimplemented!() }
+#[verifier::external_type_specification]
+#[verifier::external_body]
+pub struct ExSocketAddr(std::net::SocketAddr);
+"""
+
+_TO = r"(timeout\((?:[^()]|\([^()]*\))*\))\s*\.unwrap_or_default\(\)"
+TRANSPORT_SPECS = {
+    "Message::from_question": {"props": [], "mode": "assume", "contract": """    ensures r.header.id == id, !r.header.is_response, r.header.opcode == Opcode::Standard, !r.header.recursion_desired, r.questions@ == seq![question],"""},
+    "query_nameserver_udp": {"props": ["C08"],
+        "header_rewrites": [("R32", r"\basync fn\b", "fn"), ("R9", r"&mut \[u8\]", "&mut WireRequest")],
+        "rewrites": [("R32", r"\s*\.await\b", ""), ("R41", _TO, r"(match \1 { Ok(v__) => v__, Err(_) => None })")],
+        "contract": """    ensures r is None || budgeted(r), // [C08:every_upstream_exchange_runs_under_its_budget]"""},
+    "query_nameserver_tcp": {"props": ["C08"],
+        "header_rewrites": [("R32", r"\basync fn\b", "fn"), ("R9", r"&mut \[u8\]", "&mut WireRequest")],
+        "rewrites": [("R32", r"\s*\.await\b", ""), ("R41", _TO, r"(match \1 { Ok(v__) => v__, Err(_) => None })")],
+        "contract": """    ensures r is None || budgeted(r), // [C08:every_upstream_exchange_runs_under_its_budget]"""},
+    "query_nameserver": {"props": ["C06", "C08"],
+        "header_rewrites": [("R32", r"\basync fn\b", "fn")],
+        "rewrites": [("R32", r"\s*\.await\b", ""), ("R9", r"rand::rng\(\)\.random\(\)", "shim_random_id()"), ("R9", r"request\.to_octets\(\)", "shim_to_octets(&request)")],
+        "contract": """    ensures
+        // C06: a reply is handed to the resolver only if it is a response to this very question: anything else is discarded as a whole
+        r is Some ==> r->Some_0.header.is_response, // [C06:reply_is_a_response]
+        r is Some ==> r->Some_0.header.opcode == Opcode::Standard, // [C06:reply_opcode_matches]
+        r is Some ==> !r->Some_0.header.is_truncated, // [C06:truncated_reply_discarded]
+        r is Some ==> r->Some_0.header.rcode == Rcode::NoError || r->Some_0.header.rcode == Rcode::NameError, // [C06:error_reply_discarded]
+        r is Some ==> r->Some_0.questions@ == seq![question], // [C06:reply_question_matches]"""},
+}
+
+
 def build(G):
     begin(G, preludes=("bytes.rs", "std.rs", "net.rs", "std_slices.rs"))
     name_types(G, tryfrom=False)
@@ -237,6 +279,13 @@ def build(G):
     specs["Nameservers::match_count"] = {"props": ["C06", "C07"], "contract": "    ensures r == self.name.labels@.len(), // [C06,C07:depth_of_the_delegation_in_use_is_its_label_count]"}
     G.impl(U, "Nameservers", ["match_count"], "Nameservers::", specs)
     G.top_fn(N, "response_matches_request", specs)
+    G.raw(TRANSPORT_STANDINS, ("spec", "transport stand-ins"))
+    G.raw(timeout_standin(5_000_000_000, "every_upstream_exchange_has_a_5_second_budget_per_transport"), ("spec", "timeout stand-in"))
+    specs.update({k: dict(v) for k, v in TRANSPORT_SPECS.items()})
+    G.impl(T, "Message", ["from_question"], "Message::", specs)
+    G.top_fn(N, "query_nameserver_udp", specs)
+    G.top_fn(N, "query_nameserver_tcp", specs)
+    G.top_fn(N, "query_nameserver", specs)
     G.top_fn(N, "get_nxdomain_nodata_soa", specs)
     specs["RecordType::matches"] = {"props": ["C06"], "mode": "prove", "contract": "    ensures r == qtype_matches(*self, qtype),", "entry": "broadcast use group_eq_axioms;"}
     specs["RecordTypeWithData::matches"] = {"props": ["C06"], "mode": "prove", "contract": "    ensures r == qtype_matches(spec_rtype_of(*self), qtype),"}
@@ -274,6 +323,8 @@ pub fn shim_hashset_into_vec<T: std::cmp::Eq + std::hash::Hash>(a: HashSet<T>) -
 
 
 CANARIES = [
+    {"name": "udp_exchange_budget_50s", "file": NSRV, "old": "        Duration::from_secs(5),\n        query_nameserver_udp_notimeout(address, serialised_request),", "new": "        Duration::from_secs(50),\n        query_nameserver_udp_notimeout(address, serialised_request),"},
+    {"name": "tcp_reply_not_matched_against_the_request", "file": NSRV, "old": "            if let Some(response) = query_nameserver_tcp(address, &mut serialised_request).await {\n                if response_matches_request(&request, &response) {\n                    return Some(response);\n                }\n            }", "new": "            if let Some(response) = query_nameserver_tcp(address, &mut serialised_request).await {\n                return Some(response);\n            }"},
     {"name": "skip_id_check", "file": NSRV, "old": "    if request.header.id != response.header.id {\n        return false;\n    }\n", "new": ""},
     {"name": "accept_truncated", "file": NSRV, "old": "    if response.header.is_truncated {\n        return false;\n    }\n", "new": ""},
     {"name": "accept_servfail", "file": NSRV, "old": "response.header.rcode == Rcode::NoError || response.header.rcode == Rcode::NameError) {\n        return false;", "new": "response.header.rcode == Rcode::NoError || response.header.rcode == Rcode::NameError || response.header.rcode == Rcode::ServerFailure) {\n        return false;"},
